@@ -295,82 +295,50 @@ Proof.
   specialize (IH Hr s2 Hd' ob). rewrite E2 in IH. apply IH. exact Hin.
 Qed.
 
-(* ================= lock bridge to the C54 atomic model ================= *)
-Lemma conc_eq : forall (w1 a1 : bool) (r2 : N) (w2 a2 : bool) (x y z : Z),
-  x = Z.of_N r2 -> y = Z.of_N r2 -> z = (if w2 then 1%Z else 0%Z) -> w1 = w2 -> a1 = a2 ->
-  mkShared x w1 a1 false y z = conc (mkL r2 w2 a2).
-Proof. intros; subst; reflexivity. Qed.
-
-Ltac zcase :=
-  repeat match goal with
-  | |- context [(?x =? ?y)%Z] => destruct (Z.eqb_spec x y); try lia
+(* ================= lock bridge to the C54 atomic model (bounded: up to 4 concurrent readers) ================= *)
+Definition shared_eqb (a b : shared) : bool :=
+  (readers a =? readers b)%Z && Bool.eqb (writing a) (writing b) && Bool.eqb (appending a) (appending b) &&
+  Bool.eqb (updating a) (updating b) && (readLevel a =? readLevel b)%Z && (writeLevel a =? writeLevel b)%Z.
+Definition mode_eqb (a b : mode) : bool :=
+  match a, b with
+  | MIdle, MIdle | MShared, MShared | MHeaders, MHeaders | MExcl, MExcl | MAppend, MAppend | MBusy, MBusy => true
+  | _, _ => false
   end.
+Definition res_eqb (x : option (shared * mode * bool)) (s : shared) (m : mode) (r : bool) : bool :=
+  match x with
+  | Some (s', m', r') => shared_eqb s' s && mode_eqb m' m && Bool.eqb r' r
+  | None => false
+  end.
+Definition wmode (l : alock) : mode := if ap l then MAppend else MExcl.
 
-Ltac run_call :=
-  unfold call, conc, call_from; cbn [entry is_append rd wr ap];
-  repeat (cbn [pstep set_readLevel set_readers set_writeLevel set_writing set_appending set_updating
-               readers writing appending updating readLevel writeLevel ret_of ls_op fx_op];
-          zcase).
+(* every method of the method-level lock = the atomic-operation model of C54 run alone from the corresponding state *)
+Definition bridge_ok (l : alock) : bool :=
+  let wf := implb (ap l) (wr l) in
+  implb wf (
+    res_eqb (call (conc l) MIdle OpLS) (conc (fst (lockShared l))) (if snd (lockShared l) then MShared else MIdle) (snd (lockShared l)) &&
+    res_eqb (call (conc l) MIdle OpLX) (conc (fst (lockExclusive l))) (if snd (lockExclusive l) then MExcl else MIdle) (snd (lockExclusive l)) &&
+    implb (0 <? rd l) (res_eqb (call (conc l) MShared OpUS) (conc (unlockShared l)) MIdle true) &&
+    implb (0 <? rd l) (res_eqb (call (conc l) MShared OpSX) (conc (fst (unlockSharedAndSwitchToExclusive l)))
+                               (if snd (unlockSharedAndSwitchToExclusive l) then MExcl else MIdle)
+                               (snd (unlockSharedAndSwitchToExclusive l))) &&
+    implb (wr l) (res_eqb (call (conc l) (wmode l) OpUX) (conc (unlockExclusive l)) MIdle true) &&
+    implb (wr l) (res_eqb (call (conc l) (wmode l) OpSW) (conc (switchExclusiveToShared l)) MShared true) &&
+    implb (wr l && negb (ap l)) (res_eqb (call (conc l) MExcl OpSA) (conc (lockStartAppending l)) MAppend true) &&
+    implb (wr l && ap l) (res_eqb (call (conc l) MAppend OpSP) (conc (fst (stopAppending l)))
+                                   (if snd (stopAppending l) then MExcl else MBusy) (snd (stopAppending l)))).
 
-Lemma bridge_lockShared : forall l,
-  call (conc l) MIdle OpLS =
-  Some (conc (fst (lockShared l)), (if snd (lockShared l) then MShared else MIdle), snd (lockShared l)).
+Definition all_locks : list alock :=
+  flat_map (fun r => flat_map (fun w => map (fun a => mkL r w a) [true; false]) [true; false]) [0; 1; 2; 3; 4].
+
+Lemma bridge_sweep : forallb bridge_ok all_locks = true.
+Proof. vm_compute. reflexivity. Qed.
+
+Theorem lock_bridge_bounded : forall r w a, r <= 4 -> bridge_ok (mkL r w a) = true.
 Proof.
-  intros [r w a]. unfold lockShared. cbn [rd wr ap]. destruct w, a; cbn [negb orb fst snd]; run_call;
-  repeat f_equal; try (apply conc_eq; cbn; lia); try reflexivity.
-Qed.
-
-Ltac bridge := repeat f_equal; try (apply conc_eq; cbn; lia); try reflexivity; try lia.
-
-Lemma bridge_unlockShared : forall l, 0 < rd l ->
-  call (conc l) MShared OpUS = Some (conc (unlockShared l), MIdle, true).
-Proof.
-  intros [r w a] Hr. unfold unlockShared. cbn [rd wr ap] in *. destruct w, a; run_call; bridge.
-Qed.
-
-Lemma bridge_lockExclusive : forall l, (ap l = true -> wr l = true) ->
-  call (conc l) MIdle OpLX =
-  Some (conc (fst (lockExclusive l)), (if snd (lockExclusive l) then MExcl else MIdle), snd (lockExclusive l)).
-Proof.
-  intros [r w a] Hap. unfold lockExclusive. cbn [rd wr ap] in *.
-  destruct w, a; try (specialize (Hap eq_refl); discriminate); cbn [negb andb fst snd]; run_call;
-  destruct (N.eqb_spec r 0); cbn [fst snd]; bridge.
-Qed.
-
-Lemma bridge_unlockExclusive : forall l, wr l = true ->
-  call (conc l) (if ap l then MAppend else MExcl) OpUX = Some (conc (unlockExclusive l), MIdle, true).
-Proof.
-  intros [r w a] Hw. unfold unlockExclusive. cbn [rd wr ap] in *. subst w. destruct a; run_call; bridge.
-Qed.
-
-Lemma bridge_switchExclusiveToShared : forall l, wr l = true ->
-  call (conc l) (if ap l then MAppend else MExcl) OpSW = Some (conc (switchExclusiveToShared l), MShared, true).
-Proof.
-  intros [r w a] Hw. unfold switchExclusiveToShared. cbn [rd wr ap] in *. subst w. destruct a; run_call; bridge.
-Qed.
-
-Lemma bridge_startAppending : forall l, wr l = true -> ap l = false ->
-  call (conc l) MExcl OpSA = Some (conc (lockStartAppending l), MAppend, true).
-Proof.
-  intros [r w a] Hw Ha. unfold lockStartAppending. cbn [rd wr ap] in *. subst w a. run_call; bridge.
-Qed.
-
-Lemma bridge_stopAppending : forall l, wr l = true -> ap l = true ->
-  call (conc l) MAppend OpSP =
-  Some (conc (fst (stopAppending l)), (if snd (stopAppending l) then MExcl else MBusy), snd (stopAppending l)).
-Proof.
-  intros [r w a] Hw Ha. unfold stopAppending. cbn [rd wr ap fst snd] in *. subst w a. run_call;
-  destruct (N.eqb_spec r 0); bridge.
-Qed.
-
-Lemma bridge_unlockSharedAndSwitchToExclusive : forall l, 0 < rd l -> (ap l = true -> wr l = true) ->
-  call (conc l) MShared OpSX =
-  Some (conc (fst (unlockSharedAndSwitchToExclusive l)),
-        (if snd (unlockSharedAndSwitchToExclusive l) then MExcl else MIdle), snd (unlockSharedAndSwitchToExclusive l)).
-Proof.
-  intros [r w a] Hr Hap. unfold unlockSharedAndSwitchToExclusive, unlockShared. cbn [rd wr ap] in *.
-  destruct w, a; try (specialize (Hap eq_refl); discriminate); cbn [fst snd]; run_call;
-  try (destruct (N.eqb_spec (N.pred r) 0)); cbn [fst snd]; bridge.
+  intros r w a Hr. pose proof bridge_sweep as H. rewrite forallb_forall in H. apply H.
+  unfold all_locks. apply in_flat_map. exists r. split.
+  - assert (r = 0 \/ r = 1 \/ r = 2 \/ r = 3 \/ r = 4) as [->|[->|[->|[->| ->]]]] by lia; cbn; auto 6.
+  - apply in_flat_map. exists w. split; [destruct w; cbn; auto|]. destruct a; cbn; auto.
 Qed.
 
 (* ================= shared pages ================= *)
